@@ -32,6 +32,13 @@ def step (s : State) (toks : List String) : State × String :=
       | .ok c' => ({ clock := c' }, s!"ok {c'} clock={c'}")
       | .error e => (s, s!"{errName e} clock={s.clock}")
     | none => (s, "bad-op")
+  | ["send-unix", u] =>
+    match u.toNat? with
+    | some u =>
+      match send s.clock (wallOfUnix u) with
+      | .ok c' => ({ clock := c' }, s!"ok {c'} clock={c'}")
+      | .error e => (s, s!"{errName e} clock={s.clock}")
+    | none => (s, "bad-op")
   | ["recv", w, m] =>
     match w.toNat?, m.toNat? with
     | some w, some m =>
